@@ -29,7 +29,7 @@ static void on_signal(int s)
 {
     if (g_in_call)
     {
-        g_sig = s;
+        g_sig = s == SIGVTALRM ? SIGALRM : s;          // the watchdog (reported as signal 14, as ever)
         siglongjmp(g_jmp, 1);
     }
     _exit(70);
@@ -89,7 +89,7 @@ int main(int argc, char** argv)
     memset(&sa, 0, sizeof sa);
     sa.sa_handler = on_signal;
     sa.sa_flags = SA_NODEFER;
-    for (int s : { SIGSEGV, SIGBUS, SIGILL, SIGFPE, SIGALRM, SIGABRT })
+    for (int s : { SIGSEGV, SIGBUS, SIGILL, SIGFPE, SIGALRM, SIGVTALRM, SIGABRT })
         sigaction(s, &sa, nullptr);
 
     // index: (kind,op,type) -> list of (arch index, fn); VD_ONLY=<arch>,<arch> restricts the run to some architectures
@@ -152,14 +152,16 @@ int main(int argc, char** argv)
                 g_in_call = 1;
                 if (watchdog_ms > 0)
                 {
+                    // CPU time of the process, not wall time: a call that loops burns CPU, a process that is merely descheduled on a busy
+                    // machine does not - a watchdog must never report a call that would have returned
                     struct itimerval tv = { { 0, 0 }, { watchdog_ms / 1000, (watchdog_ms % 1000) * 1000 } };
-                    setitimer(ITIMER_REAL, &tv, nullptr);
+                    setitimer(ITIMER_VIRTUAL, &tv, nullptr);
                 }
                 pr.second(args, o);
                 if (watchdog_ms > 0)
                 {
                     struct itimerval tv = { { 0, 0 }, { 0, 0 } };
-                    setitimer(ITIMER_REAL, &tv, nullptr);
+                    setitimer(ITIMER_VIRTUAL, &tv, nullptr);
                 }
                 g_in_call = 0;
                 key = rg ? std::to_string(reg[pr.first].regbytes) + ":" : std::string("0:");
